@@ -105,7 +105,7 @@ type jobMixCase struct {
 	NoAvoid  bool `json:"noAvoid,omitempty"`
 }
 
-var allActs = []string{"decode", "info", "encode", "encodeSW", "samples", "lazycopy", "encrypt-cenc", "encrypt-cbcs", "decrypt", "annexb", "params", "mutate"}
+var allActs = []string{"decode", "info", "encode", "encodeSW", "samples", "lazycopy", "encrypt-cenc", "encrypt-cbcs", "decrypt", "annexb", "params", "mutate", "brands"}
 
 func (j job) crypt() bool { return j.Act == "decrypt" || strings.HasPrefix(j.Act, "encrypt-") }
 
@@ -430,9 +430,11 @@ func runJob(j job, shared []byte, key string, private bool) (res result) {
 			return fail("EncodeSW", err)
 		}
 		w.Write(sw.Bytes())
-	case "mutate":
+	case "mutate", "brands":
 		// the decoded structure is this goroutine's own: changing it must not reach the shared input or the
-		// structures other goroutines decoded from it
+		// structures other goroutines decoded from it ("brands": only appends and header fields, no write into
+		// sample data, so that it also runs on the shared slice after DecodeFileSR, which aliases mdat data)
+		inPlace := j.Act == "mutate"
 		if f.Ftyp != nil {
 			f.Ftyp.AddCompatibleBrands([]string{"vrf1", "vrf2", "vrf3", "vrf4", "vrf5", "vrf6"})
 		}
@@ -441,7 +443,7 @@ func runJob(j job, shared []byte, key string, private bool) (res result) {
 				seg.Styp.AddCompatibleBrands([]string{"vrf1", "vrf2", "vrf3", "vrf4"})
 			}
 			for _, fr := range seg.Fragments {
-				if fr.Mdat != nil && len(fr.Mdat.Data) > 0 {
+				if inPlace && fr.Mdat != nil && len(fr.Mdat.Data) > 0 {
 					fr.Mdat.Data[0] ^= 0xff
 					fr.Mdat.Data[len(fr.Mdat.Data)-1] ^= 0xff
 				}
@@ -450,7 +452,7 @@ func runJob(j job, shared []byte, key string, private bool) (res result) {
 				}
 			}
 		}
-		if f.Mdat != nil && len(f.Mdat.Data) > 0 {
+		if inPlace && f.Mdat != nil && len(f.Mdat.Data) > 0 {
 			f.Mdat.Data[0] ^= 0xff
 			f.Mdat.Data[len(f.Mdat.Data)-1] ^= 0xff
 		}
@@ -939,9 +941,9 @@ var repoPool = []repoEntry{
 }
 
 var (
-	progActs    = []string{"decode", "info", "encode", "encodeSW", "samples", "lazycopy", "params", "mutate"}
-	fragActs    = []string{"decode", "info", "encode", "encodeSW", "samples", "params", "mutate"}
-	synthActs   = []string{"decode", "info", "info", "encode", "encodeSW", "mutate"}
+	progActs    = []string{"decode", "info", "encode", "encodeSW", "samples", "lazycopy", "params", "mutate", "brands"}
+	fragActs    = []string{"decode", "info", "encode", "encodeSW", "samples", "params", "mutate", "brands"}
+	synthActs   = []string{"decode", "info", "info", "encode", "encodeSW", "mutate", "brands"}
 	fragEncActs = []string{"decode", "info", "encode", "encodeSW", "samples", "encrypt-cenc", "encrypt-cbcs", "encrypt-cenc", "encrypt-cbcs"}
 )
 
